@@ -2,12 +2,39 @@ import PonyVerif.Drive.Util
 import PonyVerif.Gen.Limit
 import PonyVerif.Model.Limit
 import PonyVerif.Model.Aggr
+import PonyVerif.Model.QResult
 namespace PonyVerif.Drive.C24
 open Lean PonyVerif.Py PonyVerif.Drive
 
 def jAvg : Option (Int × Nat) → Json
   | none => Json.null
   | some (s, n) => toJson [s, (n : Int)]
+
+def optNatOfJson : Json → Except String (Option Nat)
+  | .null => pure none
+  | v => do let n : Nat ← fromJson? v; pure (some n)
+
+def qopOfJson (v : Json) : Except String (PonyVerif.Model.QResult.Op Int) := do
+  let a : List Json ← (fromJson? v : Except String (Array Json)).map Array.toList
+  match a with
+  | [.str "len"] => pure .len
+  | [.str "get", i] => do let n : Nat ← fromJson? i; pure (.get n)
+  | [.str "slice", x, y] => do pure (.slice (← optNatOfJson x) (← optNatOfJson y))
+  | [.str "mem", x] => do let n : Int ← fromJson? x; pure (.mem n)
+  | [.str "index", x] => do let n : Int ← fromJson? x; pure (.index n)
+  | [.str "iter"] => pure .iter
+  | [.str "rev"] => pure .rev
+  | [.str "eq", ys] => do let l : List Int ← fromJson? ys; pure (.eqList l)
+  | [.str "reverse"] => pure .reverse
+  | _ => throw "qres: unknown operation"
+
+def jsonOfOut : PonyVerif.Model.QResult.Out Int → Json
+  | .nat n => toJson n
+  | .item x => Json.mkObj [("item", toJson x)]
+  | .items xs => toJson xs
+  | .bool b => toJson b
+  | .error k => Json.mkObj [("error", toJson k)]
+  | .unit => Json.null
 
 def handle (j : Json) : Except String Json := do
   let op ← argStr j "op"
@@ -60,5 +87,14 @@ def handle (j : Json) : Except String Json := do
         | [i, a, b] => pure (i, a, b)
         | _ => throw "orderchain: [id, a, b]")
       pure (toJson ((PonyVerif.Model.Aggr.orderChain rows (fun r => r.2.1) (fun r => r.2.2)).map (fun r => r.1)))
+  | "qres" =>
+      -- R: the full ordered result; l, o: the window the result object was created with; lazy; ops → outputs
+      let R : List Int ← (← argArr j "R").mapM (fun v => fromJson? v)
+      let l ← optNatOfJson ((j.getObjVal? "l").toOption.getD .null)
+      let o ← optNatOfJson ((j.getObjVal? "o").toOption.getD .null)
+      let isLazy ← argBool j "lazy"
+      let ops ← (← argArr j "ops").mapM qopOfJson
+      let r := if isLazy then PonyVerif.Model.QResult.lazy l o else PonyVerif.Model.QResult.eager R l o
+      pure (toJson ((PonyVerif.Model.QResult.run R r ops).map jsonOfOut))
   | _ => throw s!"unknown op {op}"
 end PonyVerif.Drive.C24
